@@ -171,8 +171,15 @@ def plant(d, r, kind, enc, comment=None):
         exp(ln, "_", m)
         exp(ln + 1, "_", m2, own=False)
     elif kind == "nsdef-attr":
-        ln = d.add("<%self:wrap title=\"${_('" + m + "')}\">" + nl + "in nsdef" + nl + "</%self:wrap>" + nl)
-        exp(ln, "_", m)
+        if r.random() < 0.5:
+            ln = d.add("<%self:wrap title=\"${_('" + m + "')}\">" + nl + "in nsdef" + nl + "</%self:wrap>" + nl)
+            exp(ln, "_", m)
+        else:
+            # the attribute expression starts on the line after its ${, a second attribute follows on a later line
+            m2 = d.msg(w)
+            ln = d.add("<%self:wrap title=\"${" + nl + "    _('" + m + "')}\"" + nl + "    other=\"${ _('" + m2 + "') }\">" + nl + "in nsdef" + nl + "</%self:wrap>" + nl)
+            exp(ln + 1, "_", m)
+            exp(ln + 2, "_", m2, "nsdef-attr-later-line")
     elif kind == "in-def-body":
         m2 = d.msg(w)
         ln = d.add('<%def name="dg' + str(d.n) + '()">' + nl + "${_('" + m + "')}" + nl + "<%" + nl + "    z = _('" + m2 + "')" + nl + "%>" + nl + "</%def>" + nl)
@@ -272,7 +279,12 @@ def compare(found, d, which, res, rc, text):
         if g[1] != func:
             res.violate("wrong-function-name", "%s\nmessage %r reported with function %r, written with %r" % (what, msgs, g[1], func), replay_case=rc)
         if g[0] != line:
-            res.violate("wrong-line-%s-%s" % (which, tag), "%s\nmessage %r reported at line %r, written on line %d" % (what, msgs, g[0], line), witness="%s %s" % (which, tag), replay_case=rc)
+            # recogniser for C20/nsdef-attribute-on-later-line: the attribute stands on a later line of the tag than an
+            # earlier attribute and is reported too EARLY (the line breaks between attributes are not part of the call
+            # expression the extractors read); too late, or any other tag kind, is a new violation
+            fid = "C20/nsdef-attribute-on-later-line" if tag == "nsdef-attr-later-line" and g[0] < line else None
+            res.violate("wrong-line-%s-%s" % (which, tag), "%s\nmessage %r reported at line %r, written on line %d" % (what, msgs, g[0], line), finding=fid,
+                        witness="<%ns:def a=\"...\"(newline) b=\"${_('m')}\">: the message in b is reported on an earlier line of the tag" if fid else "%s %s" % (which, tag), replay_case=rc)
         has = [c for c in g[3] if c]
         if comment is not None:
             if not any(comment in c for c in has):
